@@ -105,6 +105,27 @@ pub fn gen_c14(rng: &mut Rng, thorough: bool) -> Vec<Tagged> {
         out.push(("huge-gettriple3".into(), Case::GetTriple(x3, Shape::Triple(h, w, c))));
         out.push(("huge-reshape13-ne".into(), Case::Reshape(x1, Shape::Triple(c, h, w + 1))));
     }
+    // targets and sources with a ZERO dimension: a non-empty source is refused by every target that holds no
+    // element (the counts differ), whichever dimension is the zero one; empty sources against empty and
+    // non-empty targets; flatten / get_flat / get_triple of empty tensors
+    {
+        let zero_targets = [Shape::Triple(0, 2, 2), Shape::Triple(2, 0, 4), Shape::Triple(4, 2, 0), Shape::Triple(0, 0, 0), Shape::Single(0)];
+        let sources: Vec<Tensor> = vec![t1(rng.distinct(4)), t1(rng.distinct(8)), t3(1, 2, 2, &rng.distinct(4)), t3(2, 2, 2, &rng.distinct(8)), t1(rng.distinct(1))];
+        for src in &sources {
+            for tg in &zero_targets {
+                out.push(("reshape-nonempty-to-zero-dimension-ne".into(), Case::Reshape(src.clone(), tg.clone())));
+            }
+        }
+        let empties: Vec<Tensor> = vec![t1(vec![]), t3(0, 2, 2, &[]), t3(2, 0, 3, &[]), t3(2, 2, 0, &[])];
+        for e in &empties {
+            for tg in zero_targets.iter().chain([Shape::Triple(1, 1, 1), Shape::Single(2)].iter()) {
+                out.push(("reshape-empty-source".into(), Case::Reshape(e.clone(), tg.clone())));
+            }
+            out.push(("flatten-empty".into(), Case::Flatten(e.clone())));
+            out.push(("getflat-empty".into(), Case::GetFlat(e.clone())));
+            out.push(("gettriple-empty".into(), Case::GetTriple(e.clone(), Shape::Triple(0, 1, 1))));
+        }
+    }
     // flat to flat, unsupported ranks
     out.push(("reshape11".into(), Case::Reshape(t1(rng.distinct(6)), Shape::Single(7))));
     out.push(("flatten1".into(), Case::Flatten(t1(rng.distinct(5)))));
@@ -310,6 +331,36 @@ pub fn gen_c15(rng: &mut Rng, thorough: bool) -> Vec<Tagged> {
         let b: Vec<Tensor> = vec![rand_tensor(rng, &Shape::Double(130, 3), 1), rand_tensor(rng, &Shape::Single(300), 1)];
         out.push(("nested-add-large".into(), Case::NestedAdd(a.clone(), b)));
         out.push(("nested-div-large".into(), Case::NestedDiv(a, 7.0)));
+    }
+    // SPECIAL SCALARS of the scaled Hadamard product, the scalar division and the nested division: the
+    // neighbours of 1, -1, 0.5 and 2 (one ulp below / above), 1 itself, signed zeros, the smallest normal and
+    // subnormal numbers, the largest finite number, infinities and NaN - on every rank, with operands whose
+    // products are not exactly representable (so that one ulp of the scalar shows in the result)
+    {
+        let specials: Vec<f32> = vec![
+            f32::from_bits(0x3F7FFFFF), f32::from_bits(0x3F800001), 1.0, -1.0, f32::from_bits(0xBF7FFFFF), f32::from_bits(0xBF800001),
+            f32::from_bits(0x3EFFFFFF), f32::from_bits(0x3F000001), f32::from_bits(0x3FFFFFFF), f32::from_bits(0x40000001),
+            0.0, -0.0, f32::MIN_POSITIVE, 1e-45, f32::MAX, f32::INFINITY, f32::NEG_INFINITY, f32::NAN, 1.0 - f32::EPSILON, 1.0 + f32::EPSILON,
+        ];
+        for (k, &sc) in specials.iter().enumerate() {
+            let rank = 1 + k % 4;
+            let sh = match rank { 1 => Shape::Single(5), 2 => Shape::Double(2, 3), 3 => Shape::Triple(2, 2, 2), _ => Shape::Quadruple(1, 2, 2, 2) };
+            let n = shape_numel(&sh);
+            let a = tensor_of_shape(&sh, &(0..n).map(|i| 1.0 + (i as f32 + 1.0) / 3.0).collect::<Vec<_>>());
+            let b = tensor_of_shape(&sh, &(0..n).map(|i| 0.7 - (i as f32) / 7.0).collect::<Vec<_>>());
+            out.push((format!("hadamard-special-scalar-r{}", rank), Case::Hadamard(a.clone(), b.clone(), sc)));
+            // every rank for the neighbours of one
+            if k < 6 {
+                for r2 in 1..=4usize {
+                    let sh2 = match r2 { 1 => Shape::Single(4), 2 => Shape::Double(2, 2), 3 => Shape::Triple(1, 2, 2), _ => Shape::Quadruple(1, 1, 2, 2) };
+                    let a2 = tensor_of_shape(&sh2, &[1.1, -2.3, 0.7, 3.9]);
+                    let b2 = tensor_of_shape(&sh2, &[0.9, 1.7, -1.3, 0.3]);
+                    out.push((format!("hadamard-scalar-next-to-one-r{}", r2), Case::Hadamard(a2, b2, sc)));
+                }
+            }
+            out.push((format!("divscalar-special-scalar-r{}", rank), Case::DivScalar(a.clone(), sc)));
+            out.push(("nested-div-special-scalar".into(), Case::NestedDiv(vec![a.clone(), b], sc)));
+        }
     }
     out
 }
